@@ -52,9 +52,9 @@ def leftsibling(node):
     >>> print(util.leftsibling(joe))
     Node('/Dan/Jan')
     """
-    if node.parent:
+    if node.parent is not None:
         pchildren = node.parent.children
-        idx = pchildren.index(node)
+        idx = next(i for i, child in enumerate(pchildren) if child is node)
         if idx:
             return pchildren[idx - 1]
     return None
@@ -78,9 +78,9 @@ def rightsibling(node):
     >>> print(util.rightsibling(joe))
     None
     """
-    if node.parent:
+    if node.parent is not None:
         pchildren = node.parent.children
-        idx = pchildren.index(node)
+        idx = next(i for i, child in enumerate(pchildren) if child is node)
         try:
             return pchildren[idx + 1]
         except IndexError:
